@@ -8,7 +8,10 @@
 (*            Content-Type text/event-stream                               *)
 (*   chunked  the harness's strict de-chunker reached the terminating zero *)
 (*            chunk, nothing follows it, the content is UTF-8              *)
-(*   sched    Response::send returned (the stream ended), no stall         *)
+(*   sched    Response::send returned (the stream ended), no stall; and    *)
+(*            whenever the send task was suspended, every message pushed   *)
+(*            until then had been written (a producer may wait for as long *)
+(*            as it likes after a push: the message must not wait with it) *)
 (*   content  ParseES(obs.toks) dispatches exactly Expected(m) for every   *)
 (*            message m of the scenario, in order, default event type, no  *)
 (*            id, no retry (ParseES is evaluated here, by TLC)             *)
@@ -25,8 +28,10 @@ EXTENDS Sse, Json, IOUtils
 Rec == ndJsonDeserialize(IOEnv.TRACE)
 N == Len(Rec)
 
-VARIABLES l, k, drift
-tvars == <<vars, l, k, drift>>
+VARIABLES l, k, drift,
+          np, nd,      \* pushes / deliveries among the events consumed so far (counted whether or not the model explains them)
+          lagged       \* some CSuspend happened with np # nd
+tvars == <<vars, l, k, drift, np, nd, lagged>>
 
 IsSse(r) == r.obs.kind = "sse"
 Evs(i) == IF IsSse(Rec[i]) THEN Rec[i].obs.events ELSE <<>>
@@ -47,13 +52,16 @@ ResetTo(sc) == /\ script' = sc /\ ip' = 1 /\ queue' = <<>> /\ pushed' = <<>> /\ 
                /\ prod' = "running" /\ waiting' = FALSE /\ fired' = FALSE
                /\ pcC' = "start" /\ woken' = FALSE /\ spurious' = 0 /\ finished' = FALSE
 
-TInit == InitWith(ScriptOf(1)) /\ l = 1 /\ k = 1 /\ drift = 0
+TInit == InitWith(ScriptOf(1)) /\ l = 1 /\ k = 1 /\ drift = 0 /\ np = 0 /\ nd = 0 /\ lagged = FALSE
 
 TStep == /\ l <= N /\ k <= Len(Evs(l))
          /\ IF drift = 0 /\ Guard(Evs(l)[k])
               THEN (Named(Evs(l)[k]) /\ drift' = 0)
               ELSE (UNCHANGED vars /\ drift' = IF drift = 0 THEN k ELSE drift)
          /\ k' = k + 1 /\ l' = l
+         /\ np' = IF Evs(l)[k] = "PPush" THEN np + 1 ELSE np
+         /\ nd' = IF Evs(l)[k] = "CDeliver" THEN nd + 1 ELSE nd
+         /\ lagged' = (lagged \/ (Evs(l)[k] = "CSuspend" /\ np # nd))
 
 \* ------------------------------------------------------------------ the verdict of one line
 HeadClass(o) == IF o.te # "chunked" THEN "no-chunked-coding"
@@ -63,7 +71,8 @@ HeadClass(o) == IF o.te # "chunked" THEN "no-chunked-coding"
 ChunkClass(o) == IF o.dechunk # "ok" THEN o.dechunk
                  ELSE IF o.trailing # 0 THEN "bytes-after-terminator"
                  ELSE IF ~o.utf8 THEN "not-utf8" ELSE "ok"
-SchedClass(o) == IF o.stalled THEN "stalled" ELSE IF ~o.finished THEN "never-ended" ELSE "ok"
+SchedClass(o) == IF o.stalled THEN "stalled" ELSE IF ~o.finished THEN "never-ended"
+                 ELSE IF lagged THEN "suspended-with-an-unsent-message" ELSE "ok"
 
 \* (the expensive values are bound by set constructors, so that TLC evaluates each of them once per line)
 Verdict(r, out, wire) ==
@@ -84,6 +93,7 @@ Judge(r) ==
 TEnd == /\ l <= N /\ k > Len(Evs(l))
         /\ PrintT(ToJson(Judge(Rec[l])))
         /\ l' = l + 1 /\ k' = 1 /\ drift' = 0 /\ ResetTo(ScriptOf(l + 1))
+        /\ np' = 0 /\ nd' = 0 /\ lagged' = FALSE
 
 TNext == TStep \/ TEnd
 TSpec == TInit /\ [][TNext]_tvars
